@@ -591,6 +591,70 @@ func twoGiB(rec *hx.Recorder) {
 	}
 }
 
+// million: more than 2^20 messages of one type in one container (a day-long
+// recording at high rate): every one is there, in stream order. The stream is
+// assembled as bytes (one definition, then records that carry their index in
+// a uint32 field).
+func million(rec *hx.Recorder) {
+	type plan struct {
+		ft     byte
+		global uint16
+		field  byte // a uint32 field of the message
+		name   string
+	}
+	n := 1250000
+	for _, pl := range []plan{{4, 20, 5, "activity records"}, {6, 20, 5, "course records"}} {
+		body := make([]byte, 0, 5*n+64)
+		body = (&fitmodel.Rec{IsDef: true, Global: 0, Fields: []fitmodel.FieldDef{{Num: 0, Size: 1, Base: 0}}}).AppendTo(body)
+		body = (&fitmodel.Rec{Raw: []byte{pl.ft}}).AppendTo(body)
+		body = (&fitmodel.Rec{IsDef: true, Local: 1, Global: pl.global, Fields: []fitmodel.FieldDef{{Num: pl.field, Size: 4, Base: 0x86}}}).AppendTo(body)
+		for i := 0; i < n; i++ {
+			body = append(body, 1, byte(i), byte(i>>8), byte(i>>16), byte(i>>24))
+		}
+		data := append((&fitmodel.Stream{HeaderSize: 12, Proto: 0x20}).Header(len(body)), body...)
+		crc := fitmodel.CRC(data)
+		data = append(data, byte(crc), byte(crc>>8))
+		var f *fit.File
+		var err error
+		p := oracle.Catch(func() { f, err = fit.Decode(bytes.NewReader(data)) })
+		rec.Eval("million", 1)
+		rec.NonTrivialEnum(1)
+		c := seqCase{FileType: int(pl.ft), Text: fmt.Sprintf("(million) %d %s carrying their index", n, pl.name)}
+		if p != nil || err != nil {
+			rec.Fail("million", "", fmt.Sprintf("Decode of a file with %d %s: panic=%v err=%v", n, pl.name, p, err), c)
+			continue
+		}
+		var got []uint32
+		switch {
+		case pl.ft == 4 && pl.global == 20:
+			a, _ := f.Activity()
+			for _, m := range a.Records {
+				got = append(got, m.Distance)
+			}
+		case pl.ft == 6:
+			a, _ := f.Course()
+			for _, m := range a.Records {
+				got = append(got, m.Distance)
+			}
+		default:
+			a, _ := f.Activity()
+			for _, m := range a.Laps {
+				got = append(got, m.TotalDistance)
+			}
+		}
+		if len(got) != n {
+			rec.Fail("million", "", fmt.Sprintf("the stream has %d %s, the container holds %d", n, pl.name, len(got)), c)
+			continue
+		}
+		for i, v := range got {
+			if v != uint32(i) {
+				rec.Fail("million", "", fmt.Sprintf("%s: element %d of the container is message #%d of the stream", pl.name, i, v), c)
+				break
+			}
+		}
+	}
+}
+
 func TestC03(t *testing.T) {
 	hx.Main(t, "C03", func(rec *hx.Recorder) {
 		if rp, ok := hx.LoadReplay(); ok {
@@ -606,6 +670,8 @@ func TestC03(t *testing.T) {
 				declaredSizes(rec)
 			case "two-gib":
 				twoGiB(rec)
+			case "million":
+				million(rec)
 			default:
 				var c seqCase
 				json.Unmarshal(rp.Case, &c)
@@ -618,6 +684,9 @@ func TestC03(t *testing.T) {
 
 		if hx.FirstShard() {
 			declaredSizes(rec)
+			if os.Getenv("VERIF_VARIANT") == "" {
+				million(rec)
+			}
 			if hx.Thorough() {
 				twoGiB(rec)
 			}
